@@ -43,6 +43,14 @@ theorem closed_never_acquired (c : Conn P) (k : Key) (j now ka : Nat) (fix : Boo
     all_goals (split <;> simp)
   · simp [h]
 
+/-- **closing ⇒ never handed out.** From the moment the transport has started closing (peer
+FIN read, fatal error, `transport.close()` after garbage on an idle connection) - even while
+`connection_lost` has not been delivered and `self.transport` is still set - `_get` does not
+hand the connection out: the reuse decision looks at `is_closing()`, not only at `transport`. -/
+theorem closing_never_acquired (c : Conn P) (k : Key) (j now ka : Nat) (fix : Bool) :
+    (c.beginClose.tryAcquire k j now ka fix).2 = false :=
+  closed_never_acquired _ k j now ka fix (Or.inl (beginClose_not_connected c))
+
 /-- **same key.** A pooled connection is handed out only to a request whose connection key
 (host, port, TLS flag, TLS settings, proxy, proxy-header hash, server name) equals the key
 the connection was opened under. -/
@@ -113,6 +121,8 @@ theorem dirtyAcq_mono (g : CCfg) (s : CS P) (op : COp) (h : (cstep g s op).dirty
   | release e => simp only [cstep] at h; split at h <;> exact h
   | lost os => exact h
   | tick d => exact h
+  | beginClose => exact h
+  | hold => exact h
 
 theorem HInv_step (g : CCfg) (s : CS P) (op : COp) (hs : HInv s) : HInv (cstep g s op) := by
   intro hd
@@ -186,6 +196,8 @@ theorem HInv_step (g : CCfg) (s : CS P) (op : COp) (hs : HInv s) : HInv (cstep g
     · exact ho
     · exact ho.frame (frame_lostCore _ _)
   | tick d => exact ⟨ho, hh⟩
+  | beginClose => exact ⟨ho.frame (frame_beginClose _), hh⟩
+  | hold => exact ⟨ho.frame ⟨rfl, rfl, rfl, rfl, rfl, Or.inl rfl⟩, hh⟩
 
 theorem HInv_run (g : CCfg) (ops : List COp) (s : CS P) (hs : HInv s) : HInv (crun g s ops) := by
   induction ops generalizing s with
@@ -247,6 +259,8 @@ theorem dirtyAcq_fixed (g : CCfg) (hg : g.fix = true) (s : CS P) (op : COp) (h :
   | release e => simp only [cstep]; split <;> exact h
   | lost os => exact h
   | tick d => exact h
+  | beginClose => exact h
+  | hold => exact h
 
 theorem dirtyAcq_fixed_run (g : CCfg) (hg : g.fix = true) (ops : List COp) (s : CS P) (h : s.dirtyAcq = false) :
     (crun g s ops).dirtyAcq = false := by
